@@ -3,6 +3,7 @@ package e1
 import (
 	"fmt"
 	"math/rand"
+	"runtime"
 	"sort"
 	"strings"
 	"sync"
@@ -31,6 +32,9 @@ type Rec struct {
 	Done    bool      `json:"done"`
 	CB      bool      `json:"-"` // the removal callback was registered when the operation ran
 }
+
+// cbRefuses is what a removal callback panics with when the plan makes it fail.
+var cbRefuses = new(int)
 
 // NilVal marks a Store of the nil value.
 const NilVal = "<nil>"
@@ -224,12 +228,23 @@ func runFill(p *Plan, ch simsync.Chooser) *Outcome {
 }
 
 // Run executes a plan under the given chooser and judges it.
-func Run(p *Plan, ch simsync.Chooser) *Outcome {
+func Run(p *Plan, ch simsync.Chooser) (out *Outcome) {
 	rand.Seed(1) // the global generator of math/rand restarts with every run: a library that draws from it replays
+	defer func() {
+		// a panic of the cache in a call the harness makes itself (the prefill before the clients start, the questions after
+		// they have ended) is a panic of the cache like any other
+		if r := recover(); r != nil {
+			if simsync.IsAbort(r) {
+				panic(r)
+			}
+			msg := fmt.Sprint(r)
+			out = &Outcome{Probes: detsim.Counter{}, V: &detsim.Violation{Class: "panic", Sub: panicSub("harness: " + msg), Detail: "in a call made outside the simulated clients (prefill or final questions): " + msg}}
+		}
+	}()
 	if p.Shape == "fill" {
 		return runFill(p, ch)
 	}
-	out := &Outcome{Probes: detsim.Counter{}}
+	out = &Outcome{Probes: detsim.Counter{}}
 	cache := valid.NewLRU(p.Cap)
 	nc := len(p.Clients)
 	recs := make([][]Rec, nc)
@@ -246,13 +261,31 @@ func Run(p *Plan, ch simsync.Chooser) *Outcome {
 		}
 		return -1
 	}
+	cbCount := make([]int, nc)
+	var cbSelf func(k, v interface{})
+	cbRecovered := make([]int, nc) // per client: written by that client's task only
 	cbFn := func(k, v interface{}) {
 		id := simsync.TaskID()
 		if id < 0 || id >= nc || cur[id] == nil {
 			return
 		}
 		cur[id].Removed = append(cur[id].Removed, removed{keyNum(k), valStr(v)})
+		if p.CBFailEvery > 0 {
+			cbCount[id]++
+			if cbCount[id]%p.CBFailEvery == 0 {
+				// user code that misbehaves: the entry is gone all the same, and the cache must stay usable
+				switch p.CBFail {
+				case "panic":
+					panic(cbRefuses)
+				case "goexit":
+					runtime.Goexit()
+				case "reregister":
+					cache.SetDelCallBackFn(cbSelf)
+				}
+			}
+		}
 	}
+	cbSelf = cbFn
 	cbOn := p.Callback && p.CallbackAt == 0
 	if cbOn {
 		cache.SetDelCallBackFn(cbFn)
@@ -306,6 +339,10 @@ func Run(p *Plan, ch simsync.Chooser) *Outcome {
 				func() {
 					defer func() {
 						if r := recover(); r != nil {
+							if r == interface{}(cbRefuses) {
+								cbRecovered[c]++
+								return
+							}
 							rec.Panic = fmt.Sprint(r)
 							panic(r)
 						}
@@ -346,6 +383,9 @@ func Run(p *Plan, ch simsync.Chooser) *Outcome {
 	}
 	res := sim.Run()
 	out.Res = res
+	for _, n := range cbRecovered {
+		out.Probes.Add("callback_panicked_and_client_recovered", int64(n))
+	}
 	for c := range recs {
 		for i := range recs[c] {
 			if recs[c][i].Invoke != 0 {
@@ -378,9 +418,34 @@ func Run(p *Plan, ch simsync.Chooser) *Outcome {
 	case "seq":
 		out.Probes.Add("evictions", int64(model.Evictions))
 		out.Probes.Add("recency_decisive", int64(model.RecencyDecisive))
+		// an operation the client did not come back from (its callback ended the goroutine): its effect is complete by then
+		for i := range recs[0] {
+			if r := &recs[0][i]; r.Invoke != 0 && !r.Done {
+				switch r.Op.K {
+				case OpStore:
+					model.Store(r.Op.Key, r.Op.Val)
+				case OpDelete:
+					model.Delete(r.Op.Key)
+				}
+				out.Probes.Add("client_ended_inside_an_operation", 1)
+			}
+		}
 		// quiescence
 		if n := cache.Len(); n != model.Len() {
 			out.V = &detsim.Violation{Class: "model-mismatch", Sub: lenSub(n, p.Cap), Detail: fmt.Sprintf("at the end Len()=%d, model has %d entries", n, model.Len())}
+		}
+		if out.V == nil {
+			// ... and every key answers as the model says (asked from outside the simulation, after the last client has ended)
+			for k := 0; k < p.NKeys && out.V == nil; k++ {
+				v, ok := cache.Load(p.key(k))
+				mv, mok := model.Load(k)
+				switch {
+				case ok != mok:
+					out.V = &detsim.Violation{Class: "model-mismatch", Sub: map[bool]string{true: "ghost-entry", false: "lost-entry"}[ok], Detail: fmt.Sprintf("at the end Load(k%d) hit=%v, the model says %v", k, ok, mok)}
+				case ok && valStr(v) != mv:
+					out.V = &detsim.Violation{Class: "model-mismatch", Sub: "stale-value", Detail: fmt.Sprintf("at the end Load(k%d)=%q, the model holds %q", k, valStr(v), mv)}
+				}
+			}
 		}
 	case "small":
 		judgeSmall(p, out)
